@@ -38,6 +38,9 @@ func verifNewCADS() *store.CADownloadStore {
 	cads, err := store.NewCADownloadStore(store.CADownloadStoreConfig{
 		DownloadDir: filepath.Join(root, "download"),
 		CacheDir:    filepath.Join(root, "cache"),
+		// no background cleanup goroutines (idle-file cleanup is C10/C18)
+		DownloadCleanup: store.CleanupConfig{Disabled: true},
+		CacheCleanup:    store.CleanupConfig{Disabled: true},
 	}, tally.NoopScope)
 	verif.Assert("new-store", err == nil)
 	return cads
@@ -197,7 +200,7 @@ func VerifTorrentWriteSequence() {
 	verif.Cover("several-pieces", e.npiece >= 2)
 	verif.Cover("short-last-piece", n%plen != 0)
 	e.check()
-	k := verif.Bound("writes", 2, 3)
+	k := verif.Bound("writes", 3, 4)
 	for i := 0; i < k; i++ {
 		pi := verif.Len("piece_index", 0, e.npiece) // npiece itself: one past the end
 		e.write(pi, e.payload())
@@ -257,21 +260,13 @@ func VerifTorrentWriteFromAnyState() {
 // within the preemption bound; the checks run after both have returned.
 func VerifTorrentConcurrentWriters() {
 	verif.Option("max_preempt", verif.Bound("preemptions", 2, 3))
-	plen := 1
-	n := verif.Len("blob_len", 1, 2)
-	e := verifSetup(n, plen)
+	e := verifSetup(2, 1) // two pieces of one byte
 	var wg sync.WaitGroup
 	errs := make([]error, 2)
-	idx := make([]int, 2)
-	pay := make([][]byte, 2)
-	for w := 0; w < 2; w++ {
-		idx[w] = verif.Choice("piece_index", e.npiece)
-		if verif.Bool("correct_payload") {
-			pay[w] = append([]byte(nil), e.piece(idx[w])...)
-		} else {
-			pay[w] = verif.Bytes("payload", len(e.piece(idx[w])))
-		}
-	}
+	// writer 0 targets piece 0, writer 1 the same or the other piece; both
+	// payloads are arbitrary bytes (the solver decides which are correct)
+	idx := []int{0, verif.Choice("second_writer_piece", 2)}
+	pay := [][]byte{verif.Bytes("payload0", 1), verif.Bytes("payload1", 1)}
 	for w := 0; w < 2; w++ {
 		w := w
 		wg.Add(1)
